@@ -28,20 +28,25 @@ CFG = {
     "tie": {"Feed.Send / Feed.remove / Feed.Subscribe": "corr (trace validation: observed histories of the real code judged by the Spec that the model "
                                                          "is proved to satisfy; never compares two runs)",
             "f.sendCases / f.inbox at quiescence": "corr (overlay accessor vs model theorem quiescent_membership)",
-            "SubscriptionScope.Track/Close, feedSub.Unsubscribe (errOnce)": "direct Spec judgement on the real code (not modelled beyond 'one remove per subscription')",
+            "SubscriptionScope.Track/Close/Count": "model Aqv.Model.Scope (theorems scope_*) + direct judgement on the real code (kinds late, api)",
+            "feedSub.Unsubscribe (errOnce)": "direct Spec judgement on the real code (model: one remove per subscription)",
             "yield points": "verif hook present: %s" % _HOOK},
     "assumptions": ["Go runtime semantics are modelled, not verified: channel operations, reflect.Select choosing some ready case, sync.Mutex, sync.Once; "
                     "the Go memory model is not represented, so data races are outside the theorems (thorough tier runs the harness under -race)",
                     "one model step = code between two interleaving points (channel/lock operations); a subscription = one distinct channel, one remove per subscription",
-                    "progress is proved as enabledness + a decreasing measure; deriving termination from weak fairness of the scheduler and of receivers is argued, not formalised"],
+                    "liveness (send_terminates/remove_terminates) is proved for executions satisfying Aqv.Feed.Fair: weak fairness per goroutine, no channel "
+                    "stays forever subscribed and unable to accept a value, and a goroutine blocked on <-f.sendLock does not wait forever while the token "
+                    "recurs (Go: FIFO wait queue of a channel); no assumption on which ready case reflect.Select picks"],
     "trusted_base": ["Model.Feed mirrors aqua/event/feed.go Send/remove/Subscribe step by step (index arithmetic of deactivate/delete included)",
                      "the harness' global log orders events consistently with real time (mutex-protected append)"],
 }
 META = {
     "technique": "Lean 4 proof (invariants of a small-step model of Feed over ALL interleavings) tied to aqua/event by trace validation of scheduled runs",
     "text": "Theorems cases_is_active_prefix, exactly_once, at_most_once, nsent_correct, common_order, channel_fifo, no_delivery_after_unsubscribe, placement_only_to_subscribers_during_send, "
-            "never_panics, token_exclusive, quiescent_membership and the progress statements hold for every reachable state of the Lean transition system "
-            "of Feed (any number of senders, subscribers, removers, receivers); every run re-checks them and drives the real event.Feed through thousands "
+            "never_panics, token_exclusive, quiescent_membership hold for every reachable state of the Lean transition system of Feed (any number of "
+            "senders, subscribers, removers, receivers); send_terminates / remove_terminates hold on every infinite fair execution (weak fairness per "
+            "goroutine, receivers keep receiving, fair hand-off of the sendLock token; nothing assumed about which ready case reflect.Select picks); "
+            "scope_close_unsubscribes_all, scope_track_after_close_returns_nil, scope_count_after_close_zero hold for the SubscriptionScope model; every run re-checks them and drives the real event.Feed through thousands "
             "of perturbed schedules whose observed histories must satisfy the same Spec (judged in Go and by the compiled Lean acceptor).",
-    "note": GEN + " Data races and scheduler fairness are runtime matters: the harness runs under -race in the thorough tier; liveness is stated as enabledness plus a measure.",
+    "note": GEN + " Data races and scheduler fairness are runtime matters: the harness runs under -race in the thorough tier; liveness is proved relative to the explicit fairness assumptions (Aqv.Feed.Fair).",
 }
